@@ -148,8 +148,6 @@ pub fn emit_recv(recvs: &[Recv], r: &Recv, out: &mut String) {
     if r.tr.element_level() {
         if !r.attr_names.is_empty() {
             copts.push(format!("attributes({})", r.attr_names.join(", ")));
-        } else if r.tr == Trait::Attributes {
-            copts.push("attributes(never_used_name)".into());
         }
         match &r.forward {
             Fwd::None => {}
